@@ -489,13 +489,18 @@ impl ReadonlyRandomAccessFile for SimHandle {
 
     fn len(&self) -> io::Result<u64> {
         let fs = Arc::clone(&self.fs);
+        let n = {
+            let mut st = fs.state.lock();
+            let n = st.disk.inodes.get(&self.inode).map_or(0, |f| f.len()) as u64;
+            // the size query on an open handle can fail like the one by path; the query on a
+            // file that already has contents (a log reopened for appending, a table being
+            // opened) is a class of its own for the choice of fault positions
+            fs.check_fault(&mut st, if n > 0 { "size+" } else { "size" }, &self.path)?;
+            n
+        };
+        // the meeting point is the RETURN of the call: nothing of the filesystem model runs
+        // between the meeting and the caller's next instruction
         fs.rendezvous("size");
-        let mut st = fs.state.lock();
-        let n = st.disk.inodes.get(&self.inode).map_or(0, |f| f.len()) as u64;
-        // the size query on an open handle can fail like the one by path; the query on a file
-        // that already has contents (a log reopened for appending, a table being opened) is a
-        // class of its own for the choice of fault positions
-        fs.check_fault(&mut st, if n > 0 { "size+" } else { "size" }, &self.path)?;
         Ok(n)
     }
 }
